@@ -197,6 +197,10 @@ def subject(case):
     out['eager_find'] = [e.attrib.get('n') for e in eager.iterfind('t:s/t:item', namespaces={'t': 'urn:z'})]
     out['eager_find1'] = [len(e) for e in eager.iterfind('t:s', namespaces={'t': 'urn:z'})]
     out['eager_path_errors'] = err_list(s.iter_errors(xmlschema.XMLResource(xml), path='t:s', namespaces={'t': 'urn:z'}))
+    # paths with positional / attribute predicates
+    PRED = ['t:s[2]', 't:s[last()]', 't:s[1]/t:item[2]', 't:s/t:item[3]', 't:s/t:item[@id]', 't:s[2]/t:item']
+    out['eager_pred'] = {p: [(e.tag.split('}')[-1], e.attrib.get('n') or e.attrib.get('code'), len(e)) for e in eager.iterfind(p, namespaces={'t': 'urn:z'})]
+                         for p in PRED}
     out['lazy'] = {}
     for depth in case['depths']:
         for thin in (True, False):
@@ -228,6 +232,13 @@ def subject(case):
                 r['find1'] = [len(e) for e in res.iterfind('t:s', namespaces={'t': 'urn:z'})] if depth == 1 else None
                 r['path_errors'] = err_list(s.iter_errors(xmlschema.XMLResource(xml, lazy=depth, thin_lazy=thin), path='t:s',
                                                           namespaces={'t': 'urn:z'})) if depth == 1 else None
+                r['pred'] = {}
+                for p in PRED:
+                    # (the selection re-evaluates the path for every candidate node: small documents only)
+                    if p.count('/') + 1 >= depth and depth < 3 and len(xml) < 6000:
+                        res = xmlschema.XMLResource(xml, lazy=depth, thin_lazy=thin)
+                        r['pred'][p] = [(e.tag.split('}')[-1], e.attrib.get('n') or e.attrib.get('code'), len(e))
+                                        for e in res.iterfind(p, namespaces={'t': 'urn:z'})]
             except Exception as e:  # noqa
                 r['exc'] = common.exc_class(e) + ': ' + str(e)[:100]
             out['lazy']['%s/%s' % (depth, 'thin' if thin else 'full')] = r
@@ -323,6 +334,9 @@ def evaluate(ctx, cases):
                 sink.append('lazy=%s iterfind(t:s) gives %d chunks, loaded tree %d' % (cfg, len(r['find1']), len(o['eager_find1'])))
             if claimed and r['path_errors'] != o['eager_path_errors']:
                 sink.append('lazy=%s iter_errors(path=t:s) gives %s, loaded tree %s' % (cfg, r['path_errors'][:3], o['eager_path_errors'][:3]))
+            for p, got in (r.get('pred') or {}).items():
+                if got != [list(x) for x in o['eager_pred'][p]] and got != o['eager_pred'][p]:
+                    (problems if claimed else explored).append('lazy=%s iterfind(%s) selects %s, the loaded tree %s' % (cfg, p, got[:4], o['eager_pred'][p][:4]))
             if r['find'] is not None and r['find'] != o['eager_find']:
                 sink.append('lazy=%s iterfind(t:s/t:item) gives %d items, loaded tree %d' % (cfg, len(r['find']), len(o['eager_find'])))
         if explored:
